@@ -127,6 +127,9 @@ pub struct Content {
     pub n_header_comment_before_use: usize,
     /// a `macro` declaration item occurs
     pub has_macro_decl: bool,
+    /// comments that stand in the middle of a construct: the code token before them is not one of
+    /// `, ; { } ( [` (and they are not at the start of the file)
+    pub n_mid_construct_comments: usize,
 }
 
 struct Walker<'a> {
@@ -145,6 +148,8 @@ struct Walker<'a> {
     comment_texts: Vec<String>,
     n_header_comment_before_use: usize,
     has_macro_decl: bool,
+    n_mid_construct_comments: usize,
+    last_code_token: Option<String>,
 }
 
 /// The prefix (slashes, exclamation marks) and the whitespace-separated words of one comment line.
@@ -191,6 +196,11 @@ impl<'a> Walker<'a> {
                         self.n_trailing_comments += 1;
                     }
                     self.comment_texts.push(t.get_text(db).trim().to_string());
+                    if let Some(p) = &self.last_code_token {
+                        if ![",", ";", "{", "}", "(", "["].contains(&p.as_str()) {
+                            self.n_mid_construct_comments += 1;
+                        }
+                    }
                     let (tag, words) = comment_words(t.get_text(db));
                     if words.is_empty() {
                         // an empty comment line is still a comment
@@ -410,6 +420,9 @@ impl<'a> Walker<'a> {
                 self.n_tokens += 1;
                 self.out.push(Item::Tok(format!("{:?}:{}", kind, kids[1].get_text(db))));
             }
+            if !kids[1].get_text(db).is_empty() {
+                self.last_code_token = Some(kids[1].get_text(db).to_string());
+            }
             self.in_trailing = !kids[1].get_text(db).is_empty();
             self.trivia(&kids[2]);
             self.in_trailing = false;
@@ -507,6 +520,8 @@ pub fn content<'a>(db: &'a SimpleParserDatabase, root: &SyntaxNode<'a>, cfg: Cfg
         comment_texts: vec![],
         n_header_comment_before_use: 0,
         has_macro_decl: false,
+        n_mid_construct_comments: 0,
+        last_code_token: None,
     };
     w.node(root);
     let (full, d) = drop_token_tree_trailing_commas(w.out);
@@ -521,6 +536,7 @@ pub fn content<'a>(db: &'a SimpleParserDatabase, root: &SyntaxNode<'a>, cfg: Cfg
         comment_texts: w.comment_texts,
         n_header_comment_before_use: w.n_header_comment_before_use,
         has_macro_decl: w.has_macro_decl,
+        n_mid_construct_comments: w.n_mid_construct_comments,
     }
 }
 
@@ -580,9 +596,9 @@ pub fn check_tampered(text: &str, cfg: Cfg, tamper: Option<&dyn Fn(&str) -> Opti
             return None;
         }
         let c_in = content(db, &root, cfg);
-        Some((c_in.full, c_in.n_tokens, c_in.n_comments, c_in.n_comment_words, c_in.n_opt_commas, c_in.n_use_items, c_in.n_trailing_comments, c_in.comment_texts, c_in.n_header_comment_before_use, c_in.has_macro_decl))
+        Some((c_in.full, c_in.n_tokens, c_in.n_comments, c_in.n_comment_words, c_in.n_opt_commas, c_in.n_use_items, c_in.n_trailing_comments, c_in.comment_texts, c_in.n_header_comment_before_use, c_in.has_macro_decl, c_in.n_mid_construct_comments))
     });
-    let (in_items, n_tokens, n_comments, n_cw, n_oc, n_use, n_trail_in, cm_in, hdr_in, has_macro) = match r {
+    let (in_items, n_tokens, n_comments, n_cw, n_oc, n_use, n_trail_in, cm_in, hdr_in, has_macro, n_mid_in) = match r {
         Ok(Some(x)) => x,
         Ok(None) => return v,
         Err(m) => {
@@ -656,6 +672,7 @@ pub fn check_tampered(text: &str, cfg: Cfg, tamper: Option<&dyn Fn(&str) -> Opti
     let k6 = "C11-K6-file-start-comment-reattached";
     let k7 = "C11-K7-fmt-skip-attribute-with-inner-whitespace";
     let k8 = "C11-K8-merge-reorders-equal-use-items";
+    let k9 = "C11-K9-empty-comment-line-merged-away";
     // K3 with a `/` operator before the glued comment: `8 /` + `// c` reads as `8` + `/// c`
     let n_div = |v: &[Item]| v.iter().filter(|x| matches!(x, Item::Tok(t) if t == "TerminalDiv:/")).count();
     let k3_slash = n_div(&in_items) > n_div(&out_items) && cm_out.iter().any(|co| {
@@ -769,6 +786,12 @@ pub fn check_tampered(text: &str, cfg: Cfg, tamper: Option<&dyn Fn(&str) -> Opti
                 sig.push(k3);
             }
         }
+        // ... the K3 family at large: the input has a comment in the middle of a construct (not behind
+        // `, ; { } ( [`), where the formatter has no stable place for it (a trailing comment becomes a
+        // leading one or the reverse between passes, the following token is re-indented or re-broken)
+        if sig.is_empty() && n_mid_in > 0 {
+            sig.push(k3);
+        }
         v.fails.push((
             "not-idempotent",
             format!(
@@ -798,10 +821,18 @@ pub fn check_tampered(text: &str, cfg: Cfg, tamper: Option<&dyn Fn(&str) -> Opti
         }
         if mi != mo {
             let mut sig: Vec<&str> = vec![];
+            // K9: an empty comment line (`///`) behind a wrapped line of the same prefix is merged
+            // away as a "continuation": the words agree, the output has fewer empty comment lines
+            let words_only = |v: &[Item]| -> Vec<Item> {
+                v.iter().filter(|x| !matches!(x, Item::Cw(_, w) if w.is_empty())).cloned().collect()
+            };
+            let empties = |v: &[Item]| v.iter().filter(|x| matches!(x, Item::Cw(_, w) if w.is_empty())).count();
             if k5_match {
                 sig.push(k5);
             } else if k3_slash {
                 sig.push(k3);
+            } else if empties(&mo) < empties(&mi) && words_only(&mi) == words_only(&mo) {
+                sig.push(k9);
             }
             v.fails.push(("comments-changed", first_diff(&mi, &mo), sig.join(" ")));
         } else if !cfg.reorders() && li != lo && si == so {
